@@ -164,6 +164,27 @@ func zeroRow(B, U, V Matrix, k int, inSitu *InSitu) {
   }
 }
 
+// B[k,k] is zero: rotate the columns p..k-1 into column k until that
+// column is zero as well, after which B[k-1,k] = 0 and the block deflates
+func zeroColumn(B, U, V Matrix, k, p int, inSitu *InSitu) {
+
+  c  := inSitu.C
+  s  := inSitu.S
+  t1 := inSitu.T4
+  t2 := inSitu.T5
+
+  for i := k-1; i >= p; i-- {
+    y := B.At(i, i)
+    z := B.At(i, k)
+    givensRotation.Run(y, z, c, s)
+    givensRotation.ApplyBidiagRight(B, c, s, i, k, t1, t2)
+    if V != nil {
+      givensRotation.ApplyRight(V, c, s, i, k, t1, t2)
+    }
+    z.SetFloat64(0.0)
+  }
+}
+
 /* -------------------------------------------------------------------------- */
 
 func splitMatrix(B Matrix, q int) (int, int) {
@@ -214,7 +235,8 @@ func golubKahanSVD(inSitu *InSitu, epsilon float64) (Matrix, Matrix, Matrix, err
     U = U.T()
   }
 
-  for p, q := 0, 0; q < n; {
+  // iter: number of steps
+  for p, q, iter := 0, 0, 0; q < n; iter++ {
     verifhook.Tick("svd.golubKahan")
 
     for i := 0; i < n-1; i++ {
@@ -227,6 +249,9 @@ func golubKahanSVD(inSitu *InSitu, epsilon float64) (Matrix, Matrix, Matrix, err
     }
     p, q = splitMatrix(B, q)
 
+    if iter > 2000*n {
+      return nil, nil, nil, fmt.Errorf("singular value decomposition failed to converge within %d iterations", iter)
+    }
     if q < n-1 {
       // check diagonal elements in B22
       t := true
@@ -234,6 +259,11 @@ func golubKahanSVD(inSitu *InSitu, epsilon float64) (Matrix, Matrix, Matrix, err
         if B.At(k,k).GetFloat64() == 0.0 {
           zeroRow(B, U, V, k, inSitu); t = false
         }
+      }
+      // a zero in the last diagonal position of the block is removed by
+      // rotations from the right
+      if k := n-q-1; t && B.At(k,k).GetFloat64() == 0.0 {
+        zeroColumn(B, U, V, k, p, inSitu); t = false
       }
       if t {
         b := B.Slice(p,n-q,p,n-q)
